@@ -187,6 +187,17 @@ def run(tier="quick", only_key=None):
                 ck.ok("grid", f"exponax._utils.wrap_bc#{tag}")
             else:
                 ck.fail("grid", f"exponax._utils.wrap_bc#{tag}", loc(fn("wrap_bc", ut)), f"wrap_bc is not pad(u, ((0,0),(0,1)*D), mode='wrap'): {w}")
+            # ---- the spacing attribute the steppers and the Poisson solver publish
+            Diff = it.module("exponax.stepper").env.get("Diffusion")
+            Po = it.module("exponax._poisson").env.get("Poisson")
+            for nm, ob in (("exponax._base_stepper.BaseStepper.dx", catalog.build(it, Diff, D)), ("exponax._poisson.Poisson.dx", it.call(Po, [D, L, N]))):
+                dx = ob.f.get("dx")
+                if dx is None:
+                    continue
+                if as_poly(dx) == L / N:
+                    ck.ok("grid", f"{nm}#{tag}")
+                else:
+                    ck.fail("grid", f"{nm}#{tag}", loc(ob.cls.find("__init__")), f"published grid spacing dx = {dx} instead of L/N")
             # ---- coefficient read-off
             for mode in list(TABLE) + [None]:
                 uu = state_phys(D, 1)
